@@ -7,7 +7,8 @@
   * iterator side — `iterator.rs`: `Flattened`, `Transformed` (through `PathEvent::transformed`,
                     `events.rs`), `path.rs`: `IterWithAttributes::for_each_flattened`;
   * stored        — `path.rs`: `Path::transformed` / `apply_transform` (an `IdIter` walk writing
-                    through `self.points[id]`).
+                    through `self.points[id]`, incl. the copy of the first endpoint that
+                    `end(true)` stores).
 
   A builder adapter is a function from the calls it receives to the calls the wrapped builder
   receives (as in the C15 model); an iterator adapter is a function on event lists.
@@ -290,22 +291,37 @@ end Obs
 section Stored
 variable {S : Type} [Inhabited S]
 
-/-- `self.points[id.to_usize()] = transform.transform_point(self.points[id.to_usize()])`
-(an out-of-range index would panic in Rust; `id_iter` of a built path never produces one —
-C14 `no_oob` — and `List.modify` leaves the list unchanged there) -/
-def applyAt (g : Pt S → Pt S) (pts : List (Pt S)) (i : Nat) : List (Pt S) := pts.modify i g
+/-- `self.points[i] = transform.transform_point(self.points[i])`: a checked index read followed
+by a checked index write.  `none` = the index is outside the storage (Rust: panic).  `id_iter` of
+a built path never produces one — `stored_transform` (`Lemmas/AdaptersStored.lean`), C14
+`transformed_no_oob`. -/
+def applyAt (g : Pt S → Pt S) (pts : List (Pt S)) (i : Nat) : Option (List (Pt S)) :=
+  if i < pts.length then some (pts.modify i g) else none
 
-/-- the `match evt` of `apply_transform` -/
-def applyEvent (g : Pt S → Pt S) (pts : List (Pt S)) : Event Nat → List (Pt S)
+/-- the `match evt` of `apply_transform`; `stride` = `(self.num_attributes + 1) / 2`.
+`IdEvent::End { last, close: true, .. }`: `end(true)` stored a copy of the sub-path's first
+endpoint right after the last endpoint's slots, at `last + stride + 1` (it is what
+`last_endpoint` reads); it is transformed too (lyon commit f78412c3; before it every `End` was
+skipped and that slot kept the untransformed point — finding
+`C14-transformed-close-point-stale`, fixed). -/
+def applyEvent (g : Pt S → Pt S) (stride : Nat) (pts : List (Pt S)) : Event Nat → Option (List (Pt S))
   | .begin a => applyAt g pts a
   | .line _ b => applyAt g pts b
-  | .quad _ c b => applyAt g (applyAt g pts c) b
-  | .cubic _ c d b => applyAt g (applyAt g (applyAt g pts c) d) b
-  | .end_ .. => pts
+  | .quad _ c b => (applyAt g pts c).bind fun q => applyAt g q b
+  | .cubic _ c d b => (applyAt g pts c).bind fun q => (applyAt g q d).bind fun q' => applyAt g q' b
+  | .end_ last _ true => applyAt g pts (last + stride + 1)
+  | .end_ _ _ false => some pts
 
-/-- `Path::apply_transform`: `for evt in IdIter::new(num_attributes, verbs) { … }` -/
-def applyTransform (g : Pt S → Pt S) (p : PathData S) : PathData S :=
-  { p with points := p.idIter.foldl (applyEvent g) p.points }
+/-- `for evt in iter { match evt { … } }` -/
+def applyAll (g : Pt S → Pt S) (stride : Nat) : List (Event Nat) → List (Pt S) → Option (List (Pt S))
+  | [], pts => some pts
+  | e :: r, pts => (applyEvent g stride pts e).bind fun q => applyAll g stride r q
+
+/-- `Path::apply_transform`: `for evt in IdIter::new(num_attributes, verbs) { … }`;
+`none` = some `self.points[…]` of the walk indexes outside the storage (Rust: panic). -/
+def applyTransform (g : Pt S → Pt S) (p : PathData S) : Option (PathData S) :=
+  (applyAll g (attribStride p.numAttributes) p.idIter p.points).map fun pts =>
+    { p with points := pts }
 
 end Stored
 
